@@ -439,6 +439,7 @@ func (sc *scenario) author(tamper string, parent *chainBlock, ep *refEpoch, epoc
 
 type tapCall struct {
 	now, slot uint64
+	clock     uint64 // the slot the node's clock shows at the time of the call
 	hdr       *types.Header // snapshot of the header as it was passed
 	signer    types.AuthorityID
 	proof     *types.BabeEquivocationProof
@@ -448,12 +449,13 @@ type tapCall struct {
 type slotTap struct {
 	inner rbabe.SlotState
 	calls []tapCall
+	dur   time.Duration
 }
 
 func (t *slotTap) CheckEquivocation(now, slot uint64, h *types.Header, signer types.AuthorityID) (*types.BabeEquivocationProof, error) {
 	snap := copyHeaderViaWire(h)
 	p, err := t.inner.CheckEquivocation(now, slot, h, signer)
-	t.calls = append(t.calls, tapCall{now: now, slot: slot, hdr: snap, signer: signer, proof: p, err: err})
+	t.calls = append(t.calls, tapCall{now: now, slot: slot, clock: rbabe.VerifGetCurrentSlot(t.dur), hdr: snap, signer: signer, proof: p, err: err})
 	return p, err
 }
 
@@ -472,6 +474,7 @@ func runSlotsViaVerifier(k *kernel.K) {
 	sc.build(0)
 	tap.inner = sc.n.ss
 	n := sc.n
+	tap.dur = n.slotDuration()
 	ep := sc.epochs[0]
 	or := &slotOracle{k: k, fam: newSlotFamily()}
 	k.Event("genesis", "via-verifier authorities=%d slot-duration=%dms", nAuth, n.cfg.SlotDuration)
@@ -495,6 +498,13 @@ func runSlotsViaVerifier(k *kernel.K) {
 				slot = sc.S0
 			}
 			parent := sc.chain[k.Choose(len(sc.chain), "parent")]
+			if k.Bool(1, 6, "author-clock-ahead") {
+				// a validly sealed block whose author's clock runs ahead of ours: by a slot or two, or by
+				// about the retention (1000) and pruning (2000) bounds of the table
+				ahead := []uint64{1, 2, 998, 999, 1000, 1001, 1999, 2000, 2001, 2600}
+				slot = now + ahead[k.Choose(len(ahead), "ahead")]
+				k.Fault("header-slot-ahead-of-clock")
+			}
 			if parent.number > 0 && slot >= sc.S0+sc.L {
 				parent = sc.chain[0] // keep to epoch 0
 			}
@@ -531,11 +541,14 @@ func runSlotsViaVerifier(k *kernel.K) {
 			what = "conflicting"
 			k.Fault("conflicting")
 		default:
-			switch k.Choose(3, "pause") {
+			switch k.Choose(4, "pause") {
 			case 0:
 				time.Sleep(n.slotDuration())
 			case 1:
 				time.Sleep(time.Duration(2+k.Choose(30, "slots")) * n.slotDuration())
+			case 3:
+				long := []int{990, 999, 1000, 1001, 1990, 2000, 2001}
+				time.Sleep(time.Duration(long[k.Choose(len(long), "long-pause")]) * n.slotDuration())
 			default:
 				sc.restart()
 				tap.inner = n.ss
@@ -553,7 +566,9 @@ func runSlotsViaVerifier(k *kernel.K) {
 		}
 		for _, c := range tap.calls {
 			k.Event("check", "now=S0+%d slot=S0+%d proof=%v err=%v", int64(c.now)-int64(sc.S0), int64(c.slot)-int64(sc.S0), c.proof != nil, c.err != nil)
-			or.observe("via-verifier/"+what, c.now, c.slot, c.hdr, c.signer, c.proof, c.err, false)
+			// the reference is driven by the slot the node's clock shows: what is retained and what
+			// is pruned is a matter of the time that has passed, whatever the verifier passes down
+			or.observe("via-verifier/"+what, c.clock, c.slot, c.hdr, c.signer, c.proof, c.err, false)
 		}
 	}
 	if or.proofs > 0 {
